@@ -2,6 +2,7 @@
 C20 — Simplex utilities stay on the simplex and invert each other.
 """
 import math
+import random
 from decimal import Decimal, getcontext
 from fractions import Fraction
 
@@ -32,6 +33,11 @@ class C20(object):
             "round-off-sized tolerance; call sequences: every array case may be evaluated twice on the same array "
             "objects (`reps`), convex_combination is swept over 1..4 weight vectors on the same component pmfs "
             "(given as one float ndarray, as nested lists or as a list of rows; weights as ndarray or list); "
+            "(k, n) arguments (kind `stack`: k = 1..4 compositions as rows through clr/alr/ilr and inverses, closure, "
+            "perturbation, power with one or k exponents, subcomposition over 1..n indexes, dist/inner/norm; perturb_support "
+            "and jittered on rows with supports of their own); the library's own generator in place of a supplied one, "
+            "jittered(zeros=False), ball(n, size), replace_zeros on (k, n) pmfs with zero counts of their own (rand False and True); kind `proj`: projections() and downsample() on (n,) and (k, n) pmfs with "
+            "zeros or already on the grid, ops omitted or given; simplex_grid with using = tuple / list / numpy.array / default; "
             "non-trivial = dimension >= 3 and not the uniform composition")
     tolerances = {'transcendental functions vs the model in Float': 'rtol 1e-9 / atol 1e-11',
                   'slots / simplex_grid': 'exact (as sets of integer tuples, multiplicities included)',
@@ -123,7 +129,66 @@ class C20(object):
                 c['ws'] = ws
                 c['form'] = rng.choice(['ndarray', 'ndarray', 'list', 'rows'])
                 c['wform'] = rng.choice(['ndarray', 'ndarray', 'list', 'int'])
+            if kind == 'replace':
+                # a (k, n) argument: further rows with zero counts of their own (none included), drawn from a generator
+                # of their own so that the stream of cases stays what it was
+                r2 = random.Random(c['seed'])
+                c['rows'] = [[str(v) for v in (self.with_zeros(r2, self.rand_comp(r2, dim)) if r2.random() < 0.7
+                                               else self.rand_comp(r2, dim))]
+                             for _ in range(r2.choice([0, 1, 1, 2, 3]))]
+            if kind == 'perturb':
+                # further legal forms of the same calls, drawn from a generator of their own (the stream of the
+                # cases above stays what it was): the library's own generator instead of a supplied one, jitter
+                # that keeps the zeros, (k, n) arguments whose rows have supports of their own, ball(n, size)
+                r2 = random.Random(c['seed'])
+                c['more'] = {'global': r2.random() < 0.5, 'keepzeros': r2.random() < 0.6,
+                             'jitter': r2.choice([1e-8, 1e-5, 1e-3]),
+                             'rows': [[str(v) for v in self.with_zeros(r2, self.rand_comp(r2, dim))]
+                                      for _ in range(r2.choice([0, 0, 1, 2, 3]))],
+                             'ball': [r2.randint(1, 7), r2.randint(1, 5)]}
             yield c
+        # ---- a second stream, after the first so that the cases above stay what they were:
+        # `stack`: the transforms, their inverses, closure / perturbation / power / subcomposition, distance and
+        #          inner product on (k, n) arguments (k compositions as rows), k = 1..4;
+        # `proj`:  projections() -- the pmf, the intermediate snaps and the grid point downsample() returns --
+        #          and downsample() itself on (n,) and (k, n) arguments
+        for _ in range(n // 3):
+            kind = rng.choice(['stack', 'stack', 'proj'])
+            dim = rng.randint(2, 8)
+            k = rng.randint(1, 4)
+            if kind == 'stack':
+                rows = [self.rand_comp(rng, dim) for _ in range(k)]
+                rows2 = [self.rand_comp(rng, dim) for _ in range(k)]
+                yield {'kind': 'stack', 'dim': dim, 'x': [str(v) for v in rows[0]], 'y': [str(v) for v in rows2[0]],
+                       'rows': [[str(v) for v in p] for p in rows], 'rows2': [[str(v) for v in p] for p in rows2],
+                       # one power for all rows, or one per row
+                       'a': [rng.choice([-2.0, -1.0, 0.5, 2.0, 3.0]) for _ in range(rng.choice([1, k]))],
+                       'idx': rng.sample(range(dim), rng.randint(1, dim)),
+                       'seed': rng.randrange(2 ** 31), 'reps': rng.choice([1, 1, 2])}
+                continue
+            m = rng.randint(1, 12)
+            rows = []
+            for _ in range(k):
+                if rng.random() < 0.4:
+                    # already a grid point
+                    cuts = sorted(rng.randint(0, m) for _ in range(dim - 1))
+                    parts = [b - a for a, b in zip([0] + cuts, cuts + [m])]
+                    rng.shuffle(parts)
+                    rows.append([Fraction(v, m) for v in parts])
+                else:
+                    rows.append(self.with_zeros(rng, self.rand_comp(rng, dim)))
+            yield {'kind': 'proj', 'dim': dim, 'x': [str(v) for v in rows[0]], 'y': [str(v) for v in rows[0]],
+                   'rows': [[str(v) for v in p] for p in rows], 'sub': m,
+                   'stacked': rng.random() < 0.6, 'ops': rng.choice([None, None, 'argmin']),
+                   'reps': rng.choice([1, 1, 2])}
+
+    @staticmethod
+    def with_zeros(rng, comp):
+        """`comp` with up to len - 2 entries set to zero, renormalised (at least two parts stay positive)."""
+        idx = rng.sample(range(len(comp)), rng.randint(0, len(comp) - 2))
+        xz = [Fraction(0) if i in idx else v for i, v in enumerate(comp)]
+        tot = sum(xz)
+        return [v / tot for v in xz]
 
     def rand_comp(self, rng, dim):
         style = rng.choice(['uniform', 'random', 'dyadic', 'wide', 'wide', 'tiny'])
@@ -188,6 +253,17 @@ class C20(object):
                 ds = list(dit.simplex_grid(k, m))
                 if len(ds) != want or any(abs(float(np.sum(d.pmf)) - 1) > 1e-12 for d in ds):
                     r.oracle_fail = 'simplex_grid(%d,%d) with distributions: wrong count or unnormalised' % (k, m)
+            # `using` a callable other than tuple: every grid point is handed to it once and its value is yielded
+            if not r.oracle_fail:
+                for nm, fn in (('list', list), ('numpy.array', np.array)):
+                    objs = list(dit.simplex_grid(k, m, using=fn))
+                    seq = sorted(tuple(int(round(float(v) * m)) for v in np.ravel(o)) for o in objs)
+                    if (seq != nums or any(len(np.ravel(o)) != k for o in objs)
+                            or any(abs(float(v) * m - round(float(v) * m)) > 1e-9 for o in objs for v in np.ravel(o))):
+                        r.oracle_fail = ('simplex_grid(%d,%d, using=%s) does not enumerate every grid point exactly once '
+                                         '(%d values yielded, %d expected)' % (k, m, nm, len(objs), want))
+                        break
+                r.features.append('using=tuple,list,array,default')
             # the in-place form, and two grids alive at the same time (all pairs of grid points)
             if not r.oracle_fail and want <= 40:
                 seq = [tuple(int(round(v * m)) for v in d.pmf) for d in dit.simplex_grid(k, m, inplace=True)]
@@ -218,6 +294,20 @@ class C20(object):
                            'weights=%s' % case.get('wform', 'ndarray')]
         if kind == 'near':
             r.features += ['about=%s' % case['about'], 'size=%s' % case['size']]
+        if kind == 'stack':
+            r.features += ['rows=%d' % len(case['rows']), 'powers=%d' % len(case['a']), 'subcomposition=%d of %d' % (len(case['idx']), dim)]
+        if kind == 'proj':
+            r.features += ['rows=%d' % (len(case['rows']) if case.get('stacked') else 1),
+                           'arg=%s' % ('(k,n)' if case.get('stacked') else '(n,)'), 'ops=%s' % case.get('ops')]
+        if kind == 'replace' and case.get('rows'):
+            zc = [sum(1 for v in p if Fraction(v) == 0) for p in [case['x']] + case['rows']]
+            r.features += ['replace:rows=%d' % len(zc), 'replace:zero-counts=%s' % ('equal' if len(set(zc)) == 1 else 'differ'),
+                           'replace:a-row-without-zeros=%s' % (0 in zc)]
+        if kind == 'perturb' and case.get('more'):
+            more = case['more']
+            r.features += ['perturb:%s' % f for f in (['prng=library'] if more.get('global') else [])
+                           + (['jittered(zeros=False)'] if more.get('keepzeros') else [])
+                           + (['rows=%d' % (1 + len(more['rows']))] if more.get('rows') else [])]
         for rep in range(reps):
             self.once(case, drv, r, dit, A, P, x, y, x0, y0, state)
             if r.bad():
@@ -309,6 +399,15 @@ class C20(object):
                 rs = np.random.RandomState(case['seed'])
                 j = P.jittered(x, jitter=1e-5, zeros=True, prng=rs)
                 r.oracle_fail = simplex_fail('jittered', j)
+            more = case.get('more')
+            if more and not r.oracle_fail:
+                self.perturb_more(case, more, r, dit, P, x, x0, simplex_fail)
+            return
+        if kind == 'stack':
+            self.stack(case, r, A, state, cmpf, simplex_fail)
+            return
+        if kind == 'proj':
+            self.proj(case, drv, r, P, state, simplex_fail)
             return
         if kind == 'replace':
             delta = case['delta']
@@ -325,6 +424,8 @@ class C20(object):
                 rs = np.random.RandomState(case['seed'])
                 out2 = P.replace_zeros(x, delta, rand=True, prng=rs)
                 r.oracle_fail = simplex_fail('replace_zeros(rand)', out2, positive=nz == 0 or True)
+            if case.get('rows') and not r.bad():
+                self.replace_rows(case, drv, r, P, simplex_fail)
             return
         if kind == 'convex':
             # the component pmfs are built once per case and handed to every call of the sweep (and of every
@@ -376,6 +477,272 @@ class C20(object):
                 r.oracle_fail = 'downsample(x, %d) = %s is not on the grid' % (m, list(out))
             return
         return
+
+    # ------------------------------------------------------------------
+    def replace_rows(self, case, drv, r, P, simplex_fail):
+        """replace_zeros on a (k, n) argument whose rows have different numbers of zeros (none included), and on each
+        row alone: every row normalised and positive, its zeros filled (with delta, or with values in (0, delta] when
+        rand=True), its positive entries all scaled by one factor.  (Used to fail: every row was rescaled by the
+        replacement total of all rows; repaired in dit.)"""
+        delta = case['delta']
+        X0 = np.array([[float(Fraction(v)) for v in case['x']]] + [[float(Fraction(v)) for v in p] for p in case['rows']])
+        k = len(X0)
+
+        def row_fail(name, out, ref, rand):
+            f = simplex_fail(name, out)
+            if f:
+                return f
+            z = ref == 0
+            if rand and not np.all((out[z] > 0) & (out[z] <= delta)):
+                return '%s fills the zeros of %s with %s, not with values in (0, %r]' % (name, list(ref), list(out[z]), delta)
+            if not rand and np.any(np.abs(out[z] - delta) > 1e-15):
+                return '%s fills the zeros of %s with %s, not with %r' % (name, list(ref), list(out[z]), delta)
+            ratio = out[~z] / ref[~z]
+            if not np.all(np.abs(ratio - ratio[0]) <= 1e-12 * ratio[0]):
+                return '%s changes the ratios of the positive entries of %s: %s' % (name, list(ref), list(out))
+            return None
+
+        for rand in (False, True):
+            how = 'replace_zeros(%s, rand=%s)' % ('%d pmfs as rows' % k, rand)
+            X = X0.copy()
+            out = np.asarray(P.replace_zeros(X, delta, rand=rand, prng=np.random.RandomState(case['seed'])), dtype=float)
+            if out.shape != X0.shape:
+                r.mismatch = '%s has shape %s' % (how, out.shape)
+                return
+            for i in range(k):
+                r.oracle_fail = row_fail('%s, row %d' % (how, i), out[i], X0[i], rand)
+                if r.oracle_fail:
+                    r.detail = {'pmfs': X0.tolist(), 'delta': delta, 'result': out.tolist()}
+                    return
+                if not rand:
+                    nz = int((X0[i] == 0).sum())
+                    mo = [float(unq(v)) for v in drv.call('simplexq', ['replace_zeros', [q(Fraction(v)) for v in X0[i]],
+                                                                       [q(Fraction(delta))] * nz])]
+                    if any(abs(a - b) > 1e-12 for a, b in zip(out[i], mo)):
+                        r.mismatch = '%s, row %d: impl %s model %s' % (how, i, list(out[i]), mo)
+                # the row alone
+                one = np.asarray(P.replace_zeros(X0[i].copy(), delta, rand=rand, prng=np.random.RandomState(case['seed'])), dtype=float)
+                r.oracle_fail = row_fail('replace_zeros(x, rand=%s)' % rand, one, X0[i], rand)
+                if r.oracle_fail:
+                    return
+
+    def perturb_more(self, case, more, r, dit, P, x, x0, simplex_fail):
+        """The same clauses (normalised, non-negative, support preserved / zeros filled) on further legal forms of
+        the calls: the library's own generator (prng omitted), jitter that keeps the zeros, (k, n) arguments whose
+        rows have supports of their own, and ball(n, size), the neighbourhood perturb_support draws from.
+
+        (replace_zeros on a (k, n) argument is judged in `replace_rows`.)"""
+        eps, shape, seed = case['eps'], case['shape'], case['seed']
+
+        def support_fail(name, out, ref):
+            out = np.asarray(out, dtype=float)
+            if out.shape != ref.shape:
+                return '%s has shape %s for an argument of shape %s' % (name, out.shape, ref.shape)
+            for i, (o, v) in enumerate(zip(np.atleast_2d(out), np.atleast_2d(ref))):
+                nm = name if out.ndim == 1 else '%s, row %d' % (name, i)
+                f = simplex_fail(nm, o, positive=False)
+                if f:
+                    return f
+                if not np.array_equal(o > 0, v > 0):
+                    return '%s changed the support: %s -> %s' % (nm, v, o)
+            return None
+
+        def filled_fail(name, out, ref):
+            out = np.asarray(out, dtype=float)
+            if out.shape != ref.shape:
+                return '%s has shape %s for an argument of shape %s' % (name, out.shape, ref.shape)
+            for i, o in enumerate(np.atleast_2d(out)):
+                f = simplex_fail(name if out.ndim == 1 else '%s, row %d' % (name, i), o)
+                if f:
+                    return f
+            return None
+
+        if more.get('global'):
+            # prng omitted: dit.math.prng, put into a known state first so that the case replays
+            dit.math.prng.seed(seed)
+            r.oracle_fail = (support_fail('perturb_support (library generator)', P.perturb_support(x, eps=eps, shape=shape), x0)
+                             or support_fail('perturb_support (all defaults)', P.perturb_support(x), x0)
+                             or filled_fail('jittered (all defaults)', P.jittered(x), x0))
+            if r.oracle_fail:
+                return
+            b = np.asarray(dit.math.ball(more['ball'][0]))
+            if b.shape != (more['ball'][0],) or not np.all(np.isfinite(b)) or float(np.linalg.norm(b)) > 1 + 1e-12:
+                r.oracle_fail = 'ball(%d) (library generator) is not a point of the unit ball: %s' % (more['ball'][0], b)
+                return
+        rs = np.random.RandomState(seed)
+        nb, sz = more['ball']
+        b = np.asarray(dit.math.ball(nb, size=sz, prng=rs))
+        if b.shape != (sz, nb):
+            r.oracle_fail = 'ball(%d, size=%d) has shape %s' % (nb, sz, b.shape)
+            return
+        if not np.all(np.isfinite(b)) or float(np.max(np.linalg.norm(b, axis=1))) > 1 + 1e-12:
+            r.oracle_fail = 'ball(%d, size=%d) leaves the unit ball: norms %s' % (nb, sz, np.linalg.norm(b, axis=1))
+            return
+        if more.get('keepzeros'):
+            j = P.jittered(x, jitter=more['jitter'], zeros=False, prng=rs)
+            r.oracle_fail = support_fail('jittered(zeros=False)', j, x0)
+            if r.oracle_fail:
+                return
+        if more.get('rows'):
+            X0 = np.array([[float(Fraction(v)) for v in case['x']]] + [[float(Fraction(v)) for v in p] for p in more['rows']])
+            X = X0.copy()
+            r.oracle_fail = (support_fail('perturb_support of (k, n) pmfs', P.perturb_support(X, eps=eps, shape=shape, prng=rs), X0)
+                             or filled_fail('jittered of (k, n) pmfs', P.jittered(X, jitter=more['jitter'], zeros=True, prng=rs), X0)
+                             or support_fail('jittered(zeros=False) of (k, n) pmfs',
+                                             P.jittered(X, jitter=more['jitter'], zeros=False, prng=rs), X0))
+
+    def stack(self, case, r, A, state, cmpf, simplex_fail):
+        """k compositions as the rows of one (k, n) argument: every clause of the statement row by row, every
+        value against the model evaluated on that row."""
+        if 'X' not in state:
+            state['X0'] = np.array([[float(Fraction(v)) for v in p] for p in case['rows']])
+            state['Y0'] = np.array([[float(Fraction(v)) for v in p] for p in case['rows2']])
+            state['X'], state['Y'] = state['X0'].copy(), state['Y0'].copy()
+        X0, Y0, X, Y = state['X0'], state['Y0'], state['X'], state['Y']
+        k, dim = X0.shape
+
+        def rows_cmp(name, got, shape, args_of):
+            got = np.asarray(got, dtype=float)
+            if got.shape != shape:
+                return '%s of a %s argument has shape %s' % (name, X0.shape, got.shape)
+            for i in range(k):
+                m = cmpf('%s, row %d of %d' % (name, i, k), got[i], args_of(i))
+                if m:
+                    return m
+            return None
+
+        # transforms and inverses
+        for name, f, finv, w in (('clr', A.clr, A.clr_inv, dim), ('alr', A.alr, A.alr_inv, dim - 1), ('ilr', A.ilr, A.ilr_inv, dim - 1)):
+            t = f(X)
+            if np.shape(t) != (k, w):
+                r.mismatch = '%s of a %s argument has shape %s' % (name, X0.shape, np.shape(t))
+                return
+            back = finv(t)
+            if np.shape(back) != (k, dim):
+                r.mismatch = '%s_inv of a %s argument has shape %s' % (name, np.shape(t), np.shape(back))
+                return
+            err = np.max(np.abs(back - X0) / X0, axis=1)
+            if not np.all(err <= 1e-9):
+                i = int(np.argmax(~(err <= 1e-9)))
+                r.oracle_fail = ('%s_inv(%s(X)) for X of shape %s differs from X in row %d by relative %g'
+                                 % (name, name, X0.shape, i, err[i]))
+                return
+            r.mismatch = r.mismatch or (rows_cmp(name, t, (k, w), lambda i: [name, fl(X0[i]), []])
+                                        or rows_cmp(name + '_inv', back, (k, dim), lambda i: [name + '_inv', fl(t[i]), []]))
+        # arbitrary coordinate rows
+        rs = np.random.RandomState(case['seed'])
+        V = rs.randn(k, dim - 1) * 3
+        Z = A.ilr_inv(V)
+        if np.shape(Z) != (k, dim):
+            r.mismatch = 'ilr_inv of a %s argument has shape %s' % (V.shape, np.shape(Z))
+            return
+        for i in range(k):
+            r.oracle_fail = r.oracle_fail or simplex_fail('ilr_inv(V), row %d' % i, Z[i])
+        if r.oracle_fail:
+            return
+        if float(np.max(np.abs(A.ilr(Z) - V))) > 1e-8:
+            r.oracle_fail = 'ilr(ilr_inv(V)) differs from V of shape %s' % (V.shape,)
+            return
+        if float(np.max(np.abs(A.alr(A.alr_inv(V)) - V))) > 1e-8:
+            r.oracle_fail = 'alr(alr_inv(V)) differs from V of shape %s' % (V.shape,)
+            return
+        # closure / perturbation / power / subcomposition
+        a = case['a']
+        idx = [int(i) for i in case['idx']]
+        res = [('closure', A.closure(X * 3.7), dim, lambda i: ['closure', fl(X0[i] * 3.7), []]),
+               ('perturbation', A.perturbation(X, Y), dim, lambda i: ['perturbation', fl(X0[i]), fl(Y0[i])]),
+               ('power', A.power(X, np.array(a) if len(a) > 1 else a[0]), dim,
+                lambda i: ['power', fl(X0[i]), fl([a[i] if len(a) > 1 else a[0]])]),
+               ('subcomposition', A.subcomposition(X, idx), len(idx), lambda i: ['closure', fl(X0[i][idx]), []])]
+        one = A.subcomposition(X[0], idx)
+        if np.shape(one) != (len(idx),):
+            r.mismatch = 'subcomposition of one composition over %d indexes has shape %s' % (len(idx), np.shape(one))
+            return
+        r.oracle_fail = simplex_fail('subcomposition(x, %s)' % idx, one)
+        r.mismatch = r.mismatch or cmpf('subcomposition', one, ['closure', fl(X0[0][idx]), []])
+        for name, v, w, args_of in res:
+            if np.shape(v) != (k, w):
+                r.mismatch = '%s of a %s argument has shape %s' % (name, X0.shape, np.shape(v))
+                return
+            for i in range(k):
+                r.oracle_fail = r.oracle_fail or simplex_fail('%s, row %d of %d' % (name, i, k), v[i])
+            r.mismatch = r.mismatch or rows_cmp(name, v, (k, w), args_of)
+        if r.oracle_fail:
+            return
+        # isometry, row by row
+        ix, iy = A.ilr(X), A.ilr(Y)
+        d1 = np.asarray(A.dist(X, Y), dtype=float)
+        ip = np.asarray(A.inner(X, Y), dtype=float)
+        nx = np.asarray(A.norm(X), dtype=float)
+        for name, v in (('dist', d1), ('inner', ip), ('norm', nx)):
+            if v.shape != (k,):
+                r.mismatch = '%s of %s arguments has shape %s' % (name, X0.shape, v.shape)
+                return
+        d2 = np.linalg.norm(ix - iy, axis=1)
+        ip2 = np.sum(ix * iy, axis=1)
+        for i in range(k):
+            if not (abs(d1[i] - d2[i]) <= 1e-9 * max(1.0, d1[i])):
+                r.oracle_fail = ('row %d of %d: Aitchison distance %r but Euclidean distance of ilr coordinates %r'
+                                 % (i, k, float(d1[i]), float(d2[i])))
+                return
+            if not (abs(ip[i] - ip2[i]) <= 1e-8 * max(1.0, abs(ip[i]))):
+                r.oracle_fail = ('row %d of %d: Aitchison inner product %r but dot product of ilr coordinates %r'
+                                 % (i, k, float(ip[i]), float(ip2[i])))
+                return
+        r.mismatch = r.mismatch or (rows_cmp('dist', d1[:, None], (k, 1), lambda i: ['dist', fl(X0[i]), fl(Y0[i])])
+                                    or rows_cmp('inner', ip[:, None], (k, 1), lambda i: ['inner', fl(X0[i]), fl(Y0[i])])
+                                    or rows_cmp('norm', nx[:, None], (k, 1), lambda i: ['norm', fl(X0[i]), []]))
+        r.detail = {'X': X0.tolist(), 'Y': Y0.tolist()}
+
+    def proj(self, case, drv, r, P, state, simplex_fail):
+        """projections(pmf, m): the pmf itself, then the pmf after each component has been moved to its nearest
+        grid value, the last one being the grid point downsample(pmf, m) returns; every one of them a normalised
+        non-negative vector.  (n,) and (k, n) arguments.  `ops` other than np.argmin (the farther vertex of a cell)
+        is outside the statement -- it does not ask for the nearest grid point -- and is not generated."""
+        m = case['sub']
+        if 'X' not in state:
+            state['X0'] = np.array([[float(Fraction(v)) for v in p] for p in case['rows']])
+            state['arg'] = state['X0'].copy() if case.get('stacked') else state['X0'][0].copy()
+        X0, arg = state['X0'], state['arg']
+        if not case.get('stacked'):
+            X0 = X0[:1]
+        k, dim = X0.shape
+        with np.errstate(all='ignore'):
+            pr = np.asarray(P.projections(arg, m) if case.get('ops') is None
+                            else P.projections(arg, m, [np.argmin] * (dim - 1)), dtype=float)
+            ds = np.asarray(P.downsample(arg, m), dtype=float)
+        if pr.shape != ((dim, k, dim) if case.get('stacked') else (dim, dim)):
+            r.mismatch = 'projections of a pmf of shape %s has shape %s' % (arg.shape, pr.shape)
+            return
+        if ds.shape != arg.shape:
+            r.mismatch = 'downsample of a pmf of shape %s has shape %s' % (arg.shape, ds.shape)
+            return
+        if not case.get('stacked'):
+            pr, ds = pr[:, None, :], ds[None, :]
+        for i in range(k):
+            row = 'row %d of %d: ' % (i, k) if case.get('stacked') else ''
+            out = ds[i]
+            mo = [float(unq(v)) for v in drv.call('simplexq', ['downsample', m, [q(Fraction(v)) for v in X0[i]]])]
+            if any(abs(a - b) > 1e-9 for a, b in zip(out, mo)) and not self.near_tie(X0[i], m):
+                r.mismatch = r.mismatch or '%sdownsample: impl %s model %s' % (row, list(out), mo)
+            r.oracle_fail = simplex_fail(row + 'downsample', out, positive=False)
+            if not r.oracle_fail and any(abs(v * m - round(v * m)) > 1e-7 for v in out):
+                r.oracle_fail = '%sdownsample(x, %d) = %s is not on the grid' % (row, m, list(out))
+            if not r.oracle_fail and not np.array_equal(pr[0, i], X0[i]):
+                r.oracle_fail = '%sprojections(x, %d)[0] = %s is not the pmf %s' % (row, m, list(pr[0, i]), list(X0[i]))
+            for t in range(1, dim):
+                if r.oracle_fail:
+                    break
+                r.oracle_fail = simplex_fail('%sprojections(x, %d)[%d]' % (row, m, t), pr[t, i], positive=False)
+                if not r.oracle_fail and any(abs(v * m - round(v * m)) > 1e-7 for v in pr[t, i][:t]):
+                    r.oracle_fail = ('%sprojections(x, %d)[%d] = %s: its first %d components are not all on the grid'
+                                     % (row, m, t, list(pr[t, i]), t))
+            if not r.oracle_fail and float(np.max(np.abs(pr[-1, i] - out))) > 1e-12:
+                r.oracle_fail = ('%sthe last of projections(x, %d) is %s but downsample(x, %d) is %s'
+                                 % (row, m, list(pr[-1, i]), m, list(out)))
+            if r.oracle_fail:
+                r.detail = {'x': list(X0[i]), 'sub': m, 'projections': pr[:, i].tolist(), 'downsample': list(out)}
+                return
 
     # ------------------------------------------------------------------
     EPS = 2.0 ** -52
